@@ -396,9 +396,18 @@ fn exec_ticker(sc: &Scenario) -> Report {
         let d = Duration::from_nanos(d_ns);
         // the bar may start without a terminal and get one later (op "show"): a steady ticker
         // enabled meanwhile has to tick the bar all the same once it can be seen
-        let mut visible = sc.c("start_hidden") != 1;
+        let in_mp = sc.c("in_mp") == 1;
+        let mut visible = sc.c("start_hidden") != 1 || in_mp;
         let first_target = if visible { ProgressDrawTarget::term_like(Box::new(term.clone())) } else { ProgressDrawTarget::hidden() };
-        let pb = ProgressBar::with_draw_target(Some(100), first_target).with_finish(finish_kind(sc.c("on_finish"), "fin"));
+        // (in one run out of four the bar is the member of a MultiProgress, which it may leave
+        // and join again: that is no reason for its ticker to stop)
+        let mp = in_mp.then(|| MultiProgress::with_draw_target(ProgressDrawTarget::term_like(Box::new(term.clone()))));
+        let pb = match &mp {
+            Some(mp) => mp.add(ProgressBar::new(100)),
+            None => ProgressBar::with_draw_target(Some(100), first_target),
+        }
+        .with_finish(finish_kind(sc.c("on_finish"), "fin"));
+        let mut member = in_mp;
         pb.set_style(
             ProgressStyle::with_template("{spinner}|{pos}")
                 .unwrap()
@@ -442,10 +451,54 @@ fn exec_ticker(sc: &Scenario) -> Report {
                     r0
                 }
                 "show" => {
-                    let r0 = if visible { Ok(()) } else { call(|| pb.set_draw_target(ProgressDrawTarget::term_like(Box::new(term.clone())))) };
-                    visible = true;
+                    // (a member of the MultiProgress is never given the terminal directly: two
+                    // owners of one terminal are outside the property)
+                    let r0 = if visible || in_mp {
+                        Ok(())
+                    } else {
+                        // (ticks that happened while the bar could not be seen moved the spinner unseen)
+                        last_digit = None;
+                        call(|| pb.set_draw_target(ProgressDrawTarget::term_like(Box::new(term.clone()))))
+                    };
+                    visible = visible || !in_mp;
                     r0
                 }
+                "mp_remove" => match &mp {
+                    Some(mp) if member => {
+                        member = false;
+                        visible = false;
+                        // (ticks that happen while the bar cannot be seen move the spinner unseen)
+                        last_digit = None;
+                        call(|| mp.remove(pb))
+                    }
+                    _ => Ok(()),
+                },
+                "mp_readd" => match &mp {
+                    Some(mp) if !member => {
+                        member = true;
+                        visible = true;
+                        last_digit = None;
+                        call(|| drop(if op.n0() % 2 == 0 { mp.add(pb.clone()) } else { mp.insert(0, pb.clone()) }))
+                    }
+                    _ => Ok(()),
+                },
+                // calls that have nothing to do with the ticker: it stays as it is
+                "neutral" => call(|| match op.n0() % 8 {
+                    0 => pb.set_length(100 + op.n0()),
+                    1 => pb.set_prefix("p"),
+                    2 => pb.println("log"),
+                    3 => pb.reset_eta(),
+                    4 => pb.set_tab_width(4),
+                    5 => pb.suspend(|| ()),
+                    6 => {
+                        if let Some(mp) = &mp {
+                            let _ = mp.println("mplog");
+                        }
+                    }
+                    _ => {
+                        let _ = (pb.is_hidden(), pb.eta(), pb.message());
+                    }
+                }),
                 "tick" => call(|| pb.tick()),
                 "inc" => call(|| pb.inc(op.n0())),
                 "set_message" => call(|| pb.set_message("m")),
@@ -513,6 +566,9 @@ fn exec_ticker(sc: &Scenario) -> Report {
             seen += snaps.len();
             for ((_, rows), (_, _, _, tid)) in snaps.iter().zip(log.iter()) {
                 let dg = digit_of(rows);
+                if std::env::var_os("VERIF_TRACE").is_some() {
+                    eprintln!("{at}: frame by tid {tid} (main {main_tid}): {rows:?}");
+                }
                 if let (Some(prev), Some(cur)) = (last_digit, dg) {
                     if prev.is_ascii_digit() && cur.is_ascii_digit() && installed && !finished && op.k != "enable" && op.k != "disable" {
                         let adv = (cur as u8 + 10 - prev as u8) % 10;
@@ -587,7 +643,7 @@ impl Check for C08 {
         "C08"
     }
     fn rule_text(&self) -> String {
-        "race: 2..3 simulated user threads each run 2..6 calls of update/enable_steady_tick/disable_steady_tick/tick/inc/set_message/println/suspend/finish/is_finished/getters/clone+drop/reset/set_length/mp.println/mp.suspend/mp.clear/mp.remove/mp.add (re-attach)/finish through a clone dropped on the same thread/set_style/message+prefix+elapsed+duration+per_sec+style getters/downgrade+upgrade/wrap_iter completion/Debug formatting/mp.insert+insert_from_back+add of a fresh bar/insert_before+insert_after relative to a permanent member that other threads tick and update/mp.set_alignment/set_tab_width/set_prefix/set_position/dec/inc_length/dec_length/unset_length/force_draw/reset_eta/reset_elapsed/finish_using_style/the with_message, with_prefix, with_position, with_tab_width, with_style builders through a clone/wrap_write/is_hidden of the bar and of the MultiProgress/MultiProgress::set_draw_target (hidden, and its terminal back)/advance/sleep on 1..3 shared bars (standalone or in a MultiProgress, hidden or on a simulated terminal), tick intervals 1 ms..10 h, under a seeded random / sticky / PCT scheduler with spurious condvar wake-ups and clock jitter; every lock, condvar, spawn, join (and optionally atomic) is a scheduling point. Oracles: no deadlock (no runnable thread and no pending timer; wait-for graph reported), all threads terminate once all handles are gone, disable/replace/drop return without the virtual clock having to move and leave no ticker thread behind. ticker: one user thread with phases enable / sleep k intervals / manual tick / inc / set_message / finish / disable: the ticker paints >= k-1 frames while idle, manual ticks do not advance the spinner, consecutive ticker frames advance it by one, no ticker frames after stop, the ticker thread is gone after finish (within two intervals), disable and drop. Non-trivial: race = >= 2 threads with operations; ticker = >= 2 phases. Distinct = distinct scenario hash; distinct interleavings reported separately.".into()
+        "race: 2..3 simulated user threads each run 2..6 calls of update/enable_steady_tick/disable_steady_tick/tick/inc/set_message/println/suspend/finish/is_finished/getters/clone+drop/reset/set_length/mp.println/mp.suspend/mp.clear/mp.remove/mp.add (re-attach)/finish through a clone dropped on the same thread/set_style/message+prefix+elapsed+duration+per_sec+style getters/downgrade+upgrade/wrap_iter completion/Debug formatting/mp.insert+insert_from_back+add of a fresh bar/insert_before+insert_after relative to a permanent member that other threads tick and update/mp.set_alignment/set_tab_width/set_prefix/set_position/dec/inc_length/dec_length/unset_length/force_draw/reset_eta/reset_elapsed/finish_using_style/the with_message, with_prefix, with_position, with_tab_width, with_style builders through a clone/wrap_write/is_hidden of the bar and of the MultiProgress/MultiProgress::set_draw_target (hidden, and its terminal back)/advance/sleep on 1..3 shared bars (standalone or in a MultiProgress, hidden or on a simulated terminal), tick intervals 1 ms..10 h, under a seeded random / sticky / PCT scheduler with spurious condvar wake-ups and clock jitter; every lock, condvar, spawn, join (and optionally atomic) is a scheduling point. Oracles: no deadlock (no runnable thread and no pending timer; wait-for graph reported), all threads terminate once all handles are gone, disable/replace/drop return without the virtual clock having to move and leave no ticker thread behind. ticker: one user thread with phases enable / sleep k intervals / manual tick / inc / set_message / finish / disable / calls that do not concern the ticker (set_length, set_prefix, println, reset_eta, set_tab_width, suspend, mp.println, getters) / for a bar that is the member of a MultiProgress (one run in four) remove and add or insert again: the ticker paints >= k-1 frames while idle, manual ticks do not advance the spinner, consecutive ticker frames advance it by one, no ticker frames after stop, the ticker thread is gone after finish (within two intervals), disable and drop. Non-trivial: race = >= 2 threads with operations; ticker = >= 2 phases. Distinct = distinct scenario hash; distinct interleavings reported separately.".into()
     }
     fn assumptions(&self) -> Vec<String> {
         vec![
@@ -640,6 +696,7 @@ impl Check for C08 {
             sc.set("on_finish", rng.below(5));
             sc.set("slow_flush_ns", *rng.pick(&[0, 0, 0, 300_000, 5_000_000]));
             sc.set("start_hidden", rng.chance(1, 5) as u64);
+            sc.set("in_mp", rng.chance(1, 4) as u64);
             if rng.chance(1, 2) {
                 // two bits per call: 0 = original handle, 1 = clone, 2 = upgraded weak handle
                 let mut m = 0u64;
@@ -652,8 +709,11 @@ impl Check for C08 {
             let mut ops = vec![];
             let n = rng.range(2, if tier == Tier::Quick { 8 } else { 14 });
             for _ in 0..n {
-                ops.push(match rng.weighted(&[4, 3, 5, 3, 2, 2, 1, 1]) {
+                ops.push(match rng.weighted(&[4, 3, 5, 3, 2, 2, 1, 1, 2, if sc.c("in_mp") == 1 { 2 } else { 0 }, if sc.c("in_mp") == 1 { 3 } else { 0 }]) {
                     7 => Op::new("reset"),
+                    8 => Op::new("neutral").n(rng.below(64)),
+                    9 => Op::new("mp_remove"),
+                    10 => Op::new("mp_readd").n(rng.below(2)),
                     0 => Op::new("enable"),
                     1 => Op::new("disable"),
                     2 => Op::new("sleep_intervals").n(rng.range(1, 6)),
@@ -736,6 +796,6 @@ impl Check for C08 {
         }
     }
     fn shrink_cfg(&self) -> Vec<(&'static str, u64)> {
-        vec![("handle_mask", 0), ("slow_flush_ns", 0), ("panic_owner", 0), ("start_hidden", 0), ("use_mp", 0), ("visible", 0), ("now_jitter_ns", 0), ("spurious_pm", 0), ("n_bars", 1), ("atomics_yield", 0)]
+        vec![("handle_mask", 0), ("slow_flush_ns", 0), ("panic_owner", 0), ("start_hidden", 0), ("in_mp", 0), ("use_mp", 0), ("visible", 0), ("now_jitter_ns", 0), ("spurious_pm", 0), ("n_bars", 1), ("atomics_yield", 0)]
     }
 }
